@@ -44,7 +44,7 @@ func C19(c *Ctx) {
 	r.Rule("R19.1", "eviction guard: in RemoveAliveTimeoutTxs a transaction is recorded for removal (and its hash dropped) only across: older than the tolerance, not in batchedTxs, not in the priority (ready) index, present in the parking-lot index.")
 	r.Rule("R19.2", "per-account scoping: inside a loop over a per-account map (account -> txs), a removal applied to a structure that belongs to one account (obtained by looking the loop's account up) receives only that account's transactions, not the whole map.")
 	r.Rule("R19.3", "index pairing: the commit path and the eviction path remove a transaction from the same set of indices (per-account nonce index, priority, parking lot, ttl, arrival-time) and both drop its hash from txHashMap.")
-	r.Rule("R19.4", "ready counter: priorityNonBatchSize is written only in processDirtyAccount (+ number of newly ready), generateBlock (- batch length, reset) and processCommitTransactions (clamped to the ready index size), and HasPendingRequest reports exactly counter > 0.")
+	r.Rule("R19.4", "ready counter: priorityNonBatchSize is written only in processDirtyAccount (+ number of newly ready), generateBlock (- batch length, reset) and processCommitTransactions (clamped to exactly priorityIndex.size(), no arithmetic on the bound), and HasPendingRequest reports exactly counter > 0.")
 	r.Rule("R19.5", "index key agreement: every probe / removal on one of the pool's ordered indices builds its key the way the insertions into that index do (same key type; for timestamped keys the same timestamp source: the transaction's own timestamp vs. a recorded local time).")
 	c.c19KeyAgreement()
 	r.NotDecided = append(r.NotDecided, "liveness ('included in one of the next batches'); drift of the counter over histories; goroutine confinement of the pool (see C20 R20.5)")
@@ -277,7 +277,30 @@ func C19(c *Ctx) {
 					cc, isC := v.(*ssa.Call)
 					return isC && strings.HasSuffix(core.CalleeName(cc), "btreeIndex).size") && core.Mentions(cc.Call.Args[0], fieldNamed("priorityIndex"))
 				})
-				r.Check(ok, "R19.4", "processCommitTransactions: counter clamped to the ready index size", c.P.Pos(in.Pos()), "counter = priorityIndex.size() when larger", "after a commit the ready counter is not bounded by the number of ready transactions")
+				// the bound is the size itself, not an expression over it
+				isSize := func(v ssa.Value) bool {
+					for i := 0; i < 4; i++ {
+						if cv, isCv := v.(*ssa.Convert); isCv {
+							v = cv.X
+							continue
+						}
+						break
+					}
+					cc, isC := core.Strip(v).(*ssa.Call)
+					return isC && strings.HasSuffix(core.CalleeName(cc), "btreeIndex).size") && core.Mentions(cc.Call.Args[0], fieldNamed("priorityIndex"))
+				}
+				exact := isSize(st.Val)
+				if cc, isC := core.Strip(st.Val).(*ssa.Call); isC && !exact {
+					if bn, isB := cc.Call.Value.(*ssa.Builtin); isB && bn.Name() == "min" {
+						exact = true
+						for _, a := range cc.Call.Args {
+							if !isSize(a) && !mentionsField("priorityNonBatchSize")(a) {
+								exact = false
+							}
+						}
+					}
+				}
+				r.Check(ok && exact, "R19.4", "processCommitTransactions: counter clamped to the ready index size", c.P.Pos(in.Pos()), "counter = priorityIndex.size() when larger", "after a commit the ready counter is not bounded by exactly the number of ready transactions (priorityIndex.size()): a smaller bound hides ready transactions from HasPendingRequest - no batch is cut for them -, a larger one reports transactions that do not exist")
 			}
 		}
 	}
